@@ -80,14 +80,17 @@ open Gama.Ls.Ex
 attribute [local instance] sqrtFnOfSqrtField
 attribute [local instance 2000] scalarOfField
 
-/-- an ALIASED row: one observation storing column 1 twice (`−1`, `+1`: a point observed from itself).  `RowsOK` fails, the
-    merged row is `[(1, 0)]`, the summed design matrix has the entry `−1 + 1` -/
+/-- an ALIASED row: one observation storing column 1 twice (`−1`, `+1`: a point observed from itself).  The column
+    indices are NOT distinct, yet `RowsOK` (the range condition only, since round 11) holds; the summed design matrix
+    has the entry `−1 + 1` -/
 example :
-    ¬ RowsOK (toProblem (⟨1, 1, #[#[(1, -1), (1, 1)]], #[0], [], 1, []⟩ : NetProblem ℝ)) ∧
+    RowsOK (toProblem (⟨1, 1, #[#[(1, -1), (1, 1)]], #[0], [], 1, []⟩ : NetProblem ℝ)) ∧
+    ¬ ([((1 : Nat), (-1 : ℝ)), (1, 1)].map (·.1)).Nodup ∧
     Dn.mget (Net.denseA (⟨1, 1, #[#[(1, -1), (1, 1)]], #[0], [], 1, []⟩ : NetProblem ℝ)) 0 0 = -1 + 1 := by
-  refine ⟨fun h => ?_, ?_⟩
-  · have := (h 0 (by show 0 < 1; norm_num)).1
-    simp [toProblem] at this
+  refine ⟨fun i hi => ?_, by simp, ?_⟩
+  · have hi' : i = 0 := by have : i < 1 := hi; omega
+    subst hi'
+    simp [toProblem]
   · rw [C10_repeated_columns_dense_sums _ 0 0 (by decide) (by decide) (by simp)]
     simp [Cov.denseRow]
 
